@@ -103,7 +103,6 @@ func (s *TcpServer) Close() {
 	close(s.done)
 	s.wg.Wait()
 	close(s.backlog)
-	close(s.errors)
 	s.backlog = nil
 	s.errors = nil
 	s.lns = nil
